@@ -29,7 +29,7 @@ EDGE_IDS = ['e1', 'e2', 'e3', 'e4', None, None]
 OPS = ['add_node', 'new_node', 'remove_node', 'add_edge', 'add_edge', 'new_edge', 'remove_edge', 'set_ext', 'copy', 'new_graph',
        'new_factorgraph', 'new_hrg', 'new_fgg', 'add_rule', 'new_rule', 'set_start', 'add_node_label', 'add_edge_label',
        'add_domain', 'new_finite_domain', 'add_factor', 'new_finite_factor', 'from_graph', 'from_hrg', 'remove_twin_node', 'remove_twin_edge',
-       'set_ext_twin', 'add_edge_twin_node', 'set_weights', 'set_weights', 'add_edge_clash_in_call', 'set_ext_clash_in_call']
+       'set_ext_twin', 'add_edge_twin_node', 'set_weights', 'set_weights', 'add_edge_clash_in_call', 'set_ext_clash_in_call', 'add_edge_wrong_arity']
 
 
 def budget(tier):
@@ -201,7 +201,7 @@ def check(case, ctx):
         new_obj = None
         # ---------------- choose target and build the call
         if op in ('add_node', 'new_node', 'remove_node', 'add_edge', 'new_edge', 'remove_edge', 'set_ext', 'remove_twin_node',
-                  'remove_twin_edge', 'set_ext_twin', 'add_edge_twin_node', 'add_edge_clash_in_call', 'set_ext_clash_in_call'):
+                  'remove_twin_edge', 'set_ext_twin', 'add_edge_twin_node', 'add_edge_clash_in_call', 'set_ext_clash_in_call', 'add_edge_wrong_arity'):
             g = pick(lambda o: is_graph(o) and id(o) not in frozen, step['o'])
             if g is None: continue
             target = g
@@ -266,6 +266,20 @@ def check(case, ctx):
                 ext = [node_arg(g, b + i, c + i) for i in range(k)]
                 keep.extend(ext)
                 call = (lambda: setattr(g, 'ext', ext)) if d % 2 else (lambda: setattr(g, 'ext', tuple(ext)))
+            elif op == 'add_edge_wrong_arity':
+                # an Edge whose attachment nodes are a proper prefix of / longer than its label's type (labels right where both exist)
+                lab = el(EL_NAMES[a % 4], b)
+                att = []
+                for k, t in enumerate(lab.type):
+                    cands = [v for v in nodes if v.label == t]
+                    att.append(cands[(d + k) % len(cands)] if cands and (c + k) % 3 else fggs.Node(t, id=NODE_IDS[(d + k) % len(NODE_IDS)]))
+                if c % 2 and att: att = att[:-1 - (d % len(att)) if len(att) > 1 and d % 2 else -1]
+                else: att = att + [nodes[d % len(nodes)] if nodes and d % 2 else fggs.Node(nl[NL[b % 3]], id=NODE_IDS[(c + d) % len(NODE_IDS)])]
+                keep.extend(att); ctx.label('wrong-arity-edge')
+                eid = EDGE_IDS[(c + d) % len(EDGE_IDS)]
+                def call(lab=lab, att=att, eid=eid):
+                    e = fggs.Edge(lab, att, id=eid); keep.append(e)
+                    g.add_edge(e)
             elif op in ('add_edge_clash_in_call', 'set_ext_clash_in_call'):
                 # two different new nodes (same id, different labels) brought in by ONE call: the clash is among the arguments,
                 # not with a node already present
